@@ -11,7 +11,44 @@ def nontrivial(d, t, r):
     return len(spec.owned(d)) >= 2
 
 
+MODES = (("full", [], False), ("only-pkg", ["--only-pkg"], False), ("only-top", ["--only-top"], False),
+         ("stdout", [], True), ("stdout-only-top", ["--only-top"], True))
+
+
+def overlaps_through_cli(tier, seed, rep, replay):
+    """the last clause -- an overlapping description is rejected and nothing is emitted -- through the real command line
+    in EVERY output mode (the overlap check must not depend on which file is asked for)"""
+    import random
+    from harness import common, yamlout
+    if replay is not None:
+        cases = [(replay["case"]["desc"], replay["case"].get("tags", {}))]
+        modes = [m for m in MODES if m[0] == replay["case"]["mode"]]
+    else:
+        rng = random.Random(seed + 5)
+        cases = [(d, t) for d, t in families.address_suite(tier, seed) if t.get("topo") == "overlap" and d is not None]
+        if tier == "quick":
+            cases = rng.sample(cases, min(len(cases), 6))
+        modes = list(MODES)
+    jobs, meta = [], []
+    for d, t in cases:
+        for name, args, so in modes:
+            jobs.append({"yaml_text": yamlout.text(d), "args": args, "stdout": so, "keep_stdout": True}); meta.append((d, t, name))
+    res = common.run_worker("worker_cli", jobs, shards=8) if jobs else []
+    for (d, t, name), r in zip(meta, res):
+        emitted = sorted(r.get("files", {})) or (["<text on stdout>"] if "module " in r.get("stdout", "") or "package " in r.get("stdout", "") else [])
+        if r.get("rc") == 0 or emitted:
+            rep.fail(f"C01:overlap-accepted:{name}", f"an overlapping description ({t.get('layout')}, {t.get('where')}) run through the "
+                     f"command line in mode {name} ends with exit status {r.get('rc')} and emits {emitted}: it must be rejected and "
+                     f"emit nothing", {"desc": d, "tags": t, "mode": name}, observed=[r.get("rc"), emitted], expected="rejected, nothing emitted")
+    return len(jobs)
+
+
 def run(tier, seed, rep, replay=None):
+    if replay is not None and "mode" in replay.get("case", {}):
+        overlaps_through_cli(tier, seed, rep, replay)
+        return
+    n_cli = overlaps_through_cli(tier, seed, rep, None) if replay is None else 0
+    rep.coverage["overlaps_through_cli_runs"] = n_cli
     netprops.standard_run(ID, tier, seed, rep, replay, ALGOS, nontrivial, extra_cases=families.address_suite, rule=
                           "families star/mesh/mesh_plus/tree/custom x algorithms " + str(ALGOS) + " x axi/narrow-wide, "
                           "exhaustive declaration-order permutations for small stars, seeded random otherwise; "
